@@ -176,7 +176,7 @@ class C02(SingleRun):
     RULE = ("as C01 plus pause/resume/cancel/inadmissible requests at keyed handler gaps, action failures/timeouts/abandons, "
             "engine commands; status clauses evaluated after every handler; non-trivial = the run visited >= 3 distinct workflow "
             "statuses and a control request landed while >= 1 action was in flight")
-    faults = dict(poll_skip=0.05, poll_twice=0.05, restart=0.03, pause=0.04, resume_early=0.1, cancel=0.02,
+    faults = dict(poll_skip=0.05, poll_twice=0.05, restart=0.03, pause=0.04, resume_early=0.1, cancel=0.04,
                   bad_request=0.03)
 
     def nontrivial(self, r):
